@@ -373,5 +373,44 @@ def rule_r5(ctx) -> RuleResult:
     return rr
 
 
+# what to_attrs() can write for a table / row attribute line (R3 checks its shape): names, a bare name
+# for an empty value, quote_plus()-ed values in double quotes, joined by single blanks
+EMITTED_ATTRS = r'''[A-Za-z][A-Za-z0-9-]*(="[A-Za-z0-9_.%+~-]+")?( [A-Za-z][A-Za-z0-9-]*(="[A-Za-z0-9_.%+~-]+")?)*'''
+
+
+def rule_r6(ctx) -> RuleResult:
+    """Writer/reader agreement for attribute lines (`{| ...`, `|- ...`): the serialised attribute
+    string is a single text child, which check_for_attributes() hands to parse_attrs().  Whatever
+    regex gates that single-string path must accept every string to_attrs() can emit -- including a
+    bare name for an empty value -- otherwise the re-parse loses the whole attribute map."""
+    from ..core import rx
+
+    rr = RuleResult("C19.R6", "every attribute line the emitter can write is accepted as attributes by the table parser", min_instances=1)
+    fn = ctx.fn("parser.check_for_attributes")
+    blocks = [n for n in fn.body if isinstance(n, ast.If) and "len(node.children) == 1" in unparse(n.test) and "isinstance" in unparse(n.test)]
+    if len(blocks) != 1:
+        raise AnalysisError("check_for_attributes: the single-string path vanished")
+    gates = [c for st in blocks[0].body for c in ast.walk(st)
+             if isinstance(c, ast.Call) and unparse(c.func) in ("re.match", "re.fullmatch", "re.search") and c.args]
+    gates += [c for c in ast.walk(blocks[0].test)
+              if isinstance(c, ast.Call) and unparse(c.func) in ("re.match", "re.fullmatch", "re.search") and c.args]
+    if not gates:
+        rr.ok("parser.check_for_attributes", "a single text child is accepted as attribute text unconditionally", {"gates": 0})
+        return rr
+    for g in gates:
+        try:
+            pat = ctx.index.fold("parser", g.args[0])
+        except Exception:  # noqa: BLE001
+            raise AnalysisError("check_for_attributes: gate pattern {} not foldable".format(unparse(g.args[0])))
+        cex = rx.included_in_prefix(EMITTED_ATTRS, str(pat), thorough=ctx.thorough, full=(unparse(g.func) == "re.fullmatch"))
+        if cex is None:
+            rr.ok("parser.check_for_attributes", "gate {} accepts every emitted attribute line".format(unparse(g.args[0])), {"gate": str(pat)[:80]})
+        else:
+            rr.bad(Finding("C19.R6", "src/wikitextprocessor/parser.py", "parser.check_for_attributes", unparse(g)[:80],
+                           "to_attrs() can write the attribute line {!r} (a bare name for an empty value) but this test rejects it: after a "
+                           "round trip the row/table has no attributes and the text shows up as content".format(cex), g.lineno))
+    return rr
+
+
 def run(ctx) -> list:
-    return [rule_r1(ctx), rule_r2(ctx), rule_r3(ctx), rule_r4(ctx), rule_r5(ctx)]
+    return [rule_r1(ctx), rule_r2(ctx), rule_r3(ctx), rule_r4(ctx), rule_r5(ctx), rule_r6(ctx)]
